@@ -46,6 +46,11 @@ def main():
     # restore generated files for the real repository
     subprocess.run([sys.executable, "-c", "import sys; sys.path.insert(0, %r); import vlib; vlib.regenerate_gen()" % os.path.join(V, "tools")],
                    cwd=V)
+    if "C13" in pids:
+        # Gen/Protocol.v was regenerated from the scratch repository: put the real one back
+        subprocess.run(["go", "run", ".", "-repo", "/repo", "-out", os.path.join(V, "coq", "Gen")],
+                       cwd=os.path.join(V, "tools", "gen_protocol"),
+                       env=dict(os.environ, GOFLAGS="-mod=mod", GOPROXY="off", GOSUMDB="off"))
 
 
 main()
